@@ -361,6 +361,24 @@ def evalOp (op input : String) : Option String :=
   | "chainlog" => match input.splitOn "|" with
     | [n, req] => do let n ← n.toNat?; let req ← parseHex req; some (chainRun n req)
     | _ => none
+  | "chanobs" =>
+    -- events of finished calls on one channel transport, in order: w<id> Write ok, W<id> Write failed (ctx),
+    -- r<id> Read returned id, R Read failed (ctx)
+    let evs := if input = "_" then [] else input.splitOn " "
+    let parse (e : String) : Option (Transport.ChanEv Nat) :=
+      let arg := (String.ofList (e.toList.drop 1)).toNat?
+      match e.toList.head? with
+      | some 'w' => arg.map .wrote
+      | some 'W' => arg.map .writeFailed
+      | some 'r' => arg.map .readGot
+      | some 'R' => some .readFailed
+      | _ => none
+    match evs.mapM parse with
+    | none => none
+    | some l =>
+      match Transport.chanObs false [] l with
+      | some q => some s!"accept:inflight={q.length}"
+      | none => some "reject"
   | "httptable" =>
     -- ops: N<a> NewConnection(a) -> obj<i>; T all connections idle out; W<i> a Write on object i fails; R<i> Read on object i
     let ops := if input = "_" then [] else input.splitOn " "
